@@ -2,7 +2,7 @@
 # Build the framework offline from files on disk: Lean models+proofs+driver, Go harness warm-up.
 set -e
 cd "$(dirname "$0")"
-(cd lean && lake build)
+(cd lean && lake build Verif $(ls Verif | grep -E '^C[0-9]+$' | while read d; do [ -f "Verif/$d/Main.lean" ] && echo "$(echo $d | tr 'C' 'c')driver"; done))
 python3 - <<'PY'
 import sys, os
 sys.path.insert(0, os.getcwd())
